@@ -39,6 +39,7 @@ type Case struct {
 	State  string `json:"state"`  // pre-state of the root: "empty" | "tree"
 	Depth  string `json:"depth,omitempty"`
 	Source string `json:"source,omitempty"` // for channel=destination
+	Root   string `json:"root,omitempty"`   // spelling of the configured root ("" = clean absolute path)
 }
 
 type sandbox struct {
@@ -121,6 +122,47 @@ func (s *sandbox) outside() mon.Snap {
 	// removed/re-created by the harness; compare files strictly, directories
 	// by existence only (mon.Diff ignores directory mtimes).
 	return snap
+}
+
+// rootSpellings are the ways the same served directory can be configured;
+// the property quantifies over the served directory, not over how its path
+// was written down.
+var rootSpellings = []string{"trailing-slash", "double-slash", "dot-segment", "detour-and-back", "relative", "relative-dot-slash", "dot", "dot-slash"}
+
+// handler returns a handler serving the sandbox root configured in the given
+// spelling, and a function that undoes the change of working directory the
+// relative spellings need.
+func (s *sandbox) handler(spelling string) (http.Handler, func()) {
+	dir, base := filepath.Dir(s.root), filepath.Base(s.root)
+	spelled := s.root
+	chdir := ""
+	switch spelling {
+	case "trailing-slash":
+		spelled = s.root + "/"
+	case "double-slash":
+		spelled = dir + "//" + base
+	case "dot-segment":
+		spelled = dir + "/./" + base
+	case "detour-and-back":
+		spelled = dir + "/CANARYNAME-emptydir/../" + base
+	case "relative":
+		spelled, chdir = base, dir
+	case "relative-dot-slash":
+		spelled, chdir = "./"+base+"/", dir
+	case "dot":
+		spelled, chdir = ".", s.root
+	case "dot-slash":
+		spelled, chdir = "./", s.root
+	}
+	undo := func() {}
+	if chdir != "" {
+		if cwd, err := os.Getwd(); err == nil && os.Chdir(chdir) == nil {
+			undo = func() { os.Chdir(cwd) }
+		} else {
+			spelled = s.root
+		}
+	}
+	return &webdav.Handler{FileSystem: webdav.LocalFileSystem(spelled)}, undo
 }
 
 const tok = "zzTOKzz"
@@ -276,6 +318,10 @@ func (s *sandbox) check(c *fw.Ctx, cs Case, res result, before, after mon.Snap, 
 	c.Observe("forms", fmt.Sprintf("%s|%s|%s", chanKind, cs.Channel, cs.Form), 1)
 	c.Distinct(fmt.Sprintf("%s|%s|%s|%s|%s", chanKind, cs.Channel, cs.Form, cs.Method, cs.State))
 	keyBase := fmt.Sprintf("%s|%s|%s|%s", cs.Method, cs.Channel, chanKind, cs.Form)
+	if cs.Root != "" {
+		keyBase += "|root=" + cs.Root
+		c.Observe("root-spellings", cs.Root, 1)
+	}
 	// (2) canaries
 	if d := mon.Diff(before, after, true); len(d) > 0 {
 		c.Report(keyBase+"|outside-changed", fmt.Sprintf("request changed something outside the served directory: %v", d),
@@ -426,31 +472,59 @@ func runInProc(c *fw.Ctx) {
 		return
 	}
 	defer os.RemoveAll(sb.base)
-	h := &webdav.Handler{FileSystem: webdav.LocalFileSystem(sb.root)}
 	cur := ""
 	pristine := ""
-	for i, cs := range cases(c, false) {
-		if !c.Mine(i) {
-			continue
-		}
+	one := func(i int, cs Case) bool {
 		if cur != cs.State || pristine == "" {
 			if err := sb.resetRoot(cs.State); err != nil {
 				c.Inconclusive(err.Error())
-				return
+				return false
 			}
 			cur = cs.State
 			s, _ := mon.Snapshot(sb.root)
 			pristine = s.Shape()
 		}
+		h, undo := sb.handler(cs.Root)
 		before := sb.outside()
 		res := serveInProc(c, h, cs)
 		after := sb.outside()
 		sb.check(c, cs, res, before, after, h)
+		undo()
 		if s, _ := mon.Snapshot(sb.root); s.Shape() != pristine {
 			cur = "" // rebuilt before the next case
 		}
 		if c.WantSample() && i%97 == 3 {
 			c.Sample(map[string]interface{}{"case": cs, "status": res.Status})
+		}
+		return true
+	}
+	// listings of every collection of the tree under every spelling of the root
+	li := 0
+	for _, sp := range append([]string{""}, rootSpellings...) {
+		for _, p := range []string{"/", "/sub", "/sub/", "/.cfg", "/sub/...", "/sub/deep/"} {
+			for _, d := range []string{"0", "1", "infinity"} {
+				li++
+				if !c.Mine(li) {
+					continue
+				}
+				if !one(li, Case{Method: "PROPFIND", Channel: "target", Form: "plain-listing", Str: p, State: "tree", Depth: d, Root: sp}) {
+					return
+				}
+			}
+		}
+	}
+	n := c.NShardsOr1()
+	for i, cs := range cases(c, false) {
+		if !c.Mine(i) {
+			continue
+		}
+		// half of the cases run against the clean spelling, the other half
+		// rotate through the others (thorough: every third case clean)
+		if k := i / n; k%c.Pick(2, 3) != 0 {
+			cs.Root = rootSpellings[(k/2)%len(rootSpellings)]
+		}
+		if !one(i, cs) {
+			return
 		}
 	}
 }
@@ -511,7 +585,8 @@ func init() {
 			}
 			defer os.RemoveAll(sb.base)
 			sb.resetRoot(wit.Case.State)
-			h := &webdav.Handler{FileSystem: webdav.LocalFileSystem(sb.root)}
+			h, undo := sb.handler(wit.Case.Root)
+			defer undo()
 			before := sb.outside()
 			cs := wit.Case
 			cs.Wire = false
